@@ -1,7 +1,369 @@
 package main
 
-import "verifharness/hlib"
+import (
+	"fmt"
+	"strings"
+
+	"verifharness/hlib"
+)
+
+var coinPool = []string{"acoin", "bcoin", "ccoin", "dcoin", "ecoin", "fcoin", "gcoin", "hcoin", "icoin", "jcoin"}
+
+type tok struct {
+	name, symbol string
+	dec          int
+}
+
+// ERC20 shapes: mostly ("coin","CN",18) so that UpdateTokenPairERC20 finds matching metadata
+var tokPool = []tok{
+	{"coin", "CN", 18}, {"coin", "CN", 18}, {"coin", "CN", 18}, {"coin", "CN", 18}, {"coin", "CN", 6},
+	{"coin token", "CN", 18}, {"Coin", "CN", 18}, {"foo", "FOO", 18}, {"zero", "ZR", 0}, {"ab", "AB", 18}, {"x y", "XY", 8}, {"coin", "", 18},
+}
+
+func unit(d string, e uint32) Unit { return Unit{D: d, E: e} }
+
+// metadata of a coin that UpdateTokenPairERC20 can later move to a ("coin","CN",18) contract
+func updatableMD(base, name string) *MD {
+	return &MD{Base: base, Name: name, Symbol: "CN", Display: "coin", Desc: "@self", Units: []Unit{unit(base, 0), unit("coin", 18)}}
+}
+
+func simpleMD(base, name string) *MD {
+	return &MD{Base: base, Name: name, Symbol: strings.ToUpper(base), Display: base, Desc: "the " + base + " coin", Units: []Unit{unit(base, 0)}}
+}
+
+func ibcDenom(r *hlib.Rand) string {
+	return "ibc/" + strings.ToUpper(hlib.Hex(r.Bytes(32)))
+}
+
+type gen struct {
+	r        *hlib.Rand
+	ops      []Op
+	nAddr    int      // addresses known so far (mirrors runner.addrs: deployed, module-deployed, referenced)
+	deployed []int    // indices of deployed ERC20 contracts
+	coinTok  []int    // deployed contracts of the ("coin","CN",18) shape
+	reg      []int    // indices believed to be registered contracts
+	used     []string // denominations believed to be registered
+	free     []string // coin denominations not used yet
+	disabled bool
+}
+
+func (g *gen) bogus() string {
+	g.nAddr++
+	return fmt.Sprintf("@%d", g.nAddr-1) // an address nobody deployed (the runner appends it to its list)
+}
+
+func (g *gen) spell(i int) string {
+	s := fmt.Sprintf("@%d", i)
+	switch g.r.Intn(16) {
+	case 0:
+		return s + "l"
+	case 1:
+		return s + "n"
+	case 2:
+		return s + "u"
+	case 3:
+		return s + "N"
+	}
+	return s
+}
+
+func (g *gen) regRef() string {
+	if len(g.reg) > 0 && !g.r.Chance(1, 6) {
+		return g.spell(g.reg[g.r.Intn(len(g.reg))])
+	}
+	return g.addrRef()
+}
+
+func (g *gen) addrRef() string {
+	if g.nAddr == 0 || g.r.Chance(1, 14) {
+		return g.bogus()
+	}
+	return g.spell(g.r.Intn(g.nAddr))
+}
+
+func (g *gen) special() string {
+	n := g.nAddr
+	if n == 0 {
+		n = 1
+	}
+	switch g.r.Intn(4) {
+	case 0:
+		return fmt.Sprintf("@den%d", g.r.Intn(n))
+	case 1:
+		return fmt.Sprintf("@%dn", g.r.Intn(n)) // 40 hex digits: valid denomination when it starts with a letter
+	case 2:
+		return fmt.Sprintf("@%dN", g.r.Intn(n))
+	}
+	return "atele"
+}
+
+// a denomination to look up / convert / toggle
+func (g *gen) denom() string {
+	if len(g.used) > 0 && g.r.Chance(2, 3) {
+		return g.used[g.r.Intn(len(g.used))]
+	}
+	if g.r.Chance(1, 3) {
+		return g.special()
+	}
+	return coinPool[g.r.Intn(len(coinPool))]
+}
+
+// a denomination to register
+func (g *gen) newBase() string {
+	switch {
+	case g.r.Chance(1, 9):
+		return g.special()
+	case len(g.used) > 0 && g.r.Chance(1, 7):
+		return g.used[g.r.Intn(len(g.used))]
+	case len(g.free) > 0:
+		i := g.r.Intn(len(g.free))
+		d := g.free[i]
+		g.free = append(g.free[:i:i], g.free[i+1:]...)
+		return d
+	}
+	return coinPool[g.r.Intn(len(coinPool))]
+}
+
+func (g *gen) coinMD(updatable bool) *MD {
+	base := g.newBase()
+	name := base
+	switch g.r.Intn(7) {
+	case 0:
+		name = coinPool[g.r.Intn(len(coinPool))] // the Name of another (possibly registered) denomination
+	case 1:
+		name = "Coin " + base
+	}
+	var md *MD
+	if updatable {
+		md = updatableMD(base, name)
+	} else {
+		md = simpleMD(base, name)
+	}
+	// malformed stream
+	switch g.r.Intn(60) {
+	case 0:
+		md.Units = nil
+	case 1:
+		md.Base = "ab"
+		md.Units[0].D = "ab"
+	case 2:
+		md.Units = append(md.Units, unit("zcoin", 30), unit("ycoin", 30))
+	case 3:
+		md.Name = "  "
+	case 4:
+		md.Symbol = ""
+	case 5:
+		md.Display = "nodisplay"
+	case 6:
+		md.Base = "a/b-c" // valid denomination, refused by validateIBC
+		md.Units[0].D = md.Base
+		if md.Display == base {
+			md.Display = md.Base
+		}
+	case 7:
+		b := ibcDenom(g.r)
+		md = &MD{Base: b, Name: "channel-0 coin", Symbol: "ibcCN", Display: b, Desc: "ibc voucher", Units: []Unit{unit(b, 0)}}
+	case 8:
+		b := ibcDenom(g.r)
+		md = &MD{Base: b, Name: "no chan", Symbol: "CN", Display: b, Desc: "ibc voucher", Units: []Unit{unit(b, 0)}}
+	case 9:
+		md.Units[0].E = 1
+	case 10:
+		md.Base = "ibc/zz"
+		md.Units[0].D = md.Base
+	case 11:
+		md.Units = append(md.Units, unit(base, 40))
+	}
+	return md
+}
+
+func (g *gen) add(o Op) { g.ops = append(g.ops, o) }
+
+func (g *gen) deploy(coin bool) int {
+	t := tokPool[g.r.Intn(len(tokPool))]
+	if coin {
+		t = tokPool[0]
+	}
+	g.add(Op{K: "deploy", Name: t.name, Symbol: t.symbol, Decimals: t.dec})
+	g.nAddr++
+	g.deployed = append(g.deployed, g.nAddr-1)
+	if t == tokPool[0] {
+		g.coinTok = append(g.coinTok, g.nAddr-1)
+	}
+	return g.nAddr - 1
+}
+
+func (g *gen) genesis() {
+	n := 1 + g.r.Intn(3)
+	op := Op{K: "genesis"}
+	for i := 0; i < n; i++ {
+		p := GPair{Text: fmt.Sprintf("@%d", i), Enabled: !g.r.Chance(1, 5), Owner: 1 + g.r.Intn(2)}
+		switch g.r.Intn(14) {
+		case 0:
+			p.Text += "l"
+		case 1:
+			p.Text += "n"
+		case 2:
+			if i > 0 {
+				p.Text = fmt.Sprintf("@%dl", i-1) // the previous pair's contract, spelled differently
+			}
+		case 3:
+			if i > 0 {
+				p.Text = fmt.Sprintf("@%d", i-1)
+			}
+		case 4:
+			p.Text = "0xnothex"
+		}
+		nd := 1 + g.r.Intn(3)
+		for j := 0; j < nd && len(g.free) > 0; j++ {
+			d := g.free[0]
+			g.free = g.free[1:]
+			switch g.r.Intn(36) {
+			case 0:
+				d = coinPool[g.r.Intn(len(coinPool))] // possibly a duplicate (of another pair, in any position)
+			case 1:
+				d = fmt.Sprintf("@%dn", i)
+			case 2:
+				d = "1bad"
+			}
+			p.Denoms = append(p.Denoms, d)
+			g.used = append(g.used, d)
+			if g.r.Chance(3, 4) {
+				m := MD{Base: d, Name: d, Symbol: "CN", Display: "coin", Desc: fmt.Sprintf("@desc%d", i), Units: []Unit{unit(d, 0), unit("coin", 18)}}
+				op.Metas = append(op.Metas, m)
+			}
+		}
+		if g.r.Chance(1, 40) {
+			p.Denoms = nil
+		}
+		op.Pairs = append(op.Pairs, p)
+		g.reg = append(g.reg, i)
+	}
+	g.add(op)
+	g.nAddr += n
+}
 
 func genSpec(r *hlib.Rand, id, steps int) Spec {
-	return Spec{ID: id}
+	g := &gen{r: r, free: append([]string{}, coinPool...)}
+	if r.Chance(1, 4) {
+		g.genesis()
+	}
+	n := 8 + r.Intn(steps)
+	for len(g.ops) < n {
+		switch x := r.Intn(100); {
+		case x < 6:
+			if len(g.deployed) < 6 {
+				g.deploy(false)
+			}
+		case x < 20:
+			md := g.coinMD(r.Chance(2, 3))
+			if !r.Chance(1, 10) {
+				g.add(Op{K: "supply", A: md.Base})
+			}
+			g.add(Op{K: "regcoin", MD: md})
+			g.nAddr++ // the address the module (would have) deployed; the runner appends it in any case
+			g.reg = append(g.reg, g.nAddr-1)
+			g.used = append(g.used, md.Base)
+		case x < 40:
+			md := g.coinMD(false)
+			md.Desc = "added coin"
+			if !r.Chance(1, 10) {
+				g.add(Op{K: "supply", A: md.Base})
+			}
+			c := g.regRef()
+			if r.Chance(1, 40) {
+				c = "nothex"
+			}
+			g.add(Op{K: "addcoin", MD: md, A: c})
+			g.used = append(g.used, md.Base)
+		case x < 52:
+			var i int
+			if len(g.deployed) == 0 || (r.Chance(1, 2) && len(g.deployed) < 6) {
+				i = g.deploy(r.Chance(2, 3))
+			} else {
+				i = g.deployed[r.Intn(len(g.deployed))]
+			}
+			t := g.spell(i)
+			if r.Chance(1, 10) {
+				t = g.addrRef()
+			}
+			g.add(Op{K: "regerc20", A: t})
+			g.reg = append(g.reg, i)
+			g.used = append(g.used, fmt.Sprintf("@den%d", i))
+		case x < 62:
+			t := g.regRef()
+			if r.Chance(1, 2) {
+				t = g.denom()
+			}
+			g.add(Op{K: "toggle", A: t})
+		case x < 80:
+			if len(g.reg) > 0 && r.Chance(3, 4) && len(g.deployed) < 7 {
+				j := g.deploy(!r.Chance(1, 6)) // a fresh contract to move to
+				i := g.reg[r.Intn(len(g.reg))]
+				g.add(Op{K: "update", A: g.spell(i), B: g.spell(j)})
+				g.reg = append(g.reg, j)
+			} else {
+				g.add(Op{K: "update", A: g.regRef(), B: g.addrRef()})
+			}
+		case x < 87:
+			g.add(Op{K: "convcoin", A: g.denom()})
+		case x < 92:
+			g.add(Op{K: "converc20", A: g.regRef(), B: g.denom()})
+		case x < 95:
+			g.disabled = !g.disabled
+			g.add(Op{K: "enable", On: !g.disabled})
+		case x < 98:
+			if len(g.ops) > n/2 && len(g.reg) > 0 {
+				g.add(Op{K: "destroy", A: g.regRef()})
+				g.add(Op{K: "convcoin", A: g.denom()})
+				g.add(Op{K: "converc20", A: g.regRef(), B: g.denom()})
+			}
+		default:
+			if g.disabled {
+				g.disabled = false
+				g.add(Op{K: "enable", On: true})
+			}
+		}
+	}
+	return Spec{ID: id, Ops: g.ops}
+}
+
+// targeted sequences: the witnesses of every defect found so far (all repaired at /repo HEAD); they keep the
+// check sensitive to a regression of each repair for every seed
+func targeted() []Spec {
+	coin := func(k string) Op { return Op{K: "deploy", Name: "coin", Symbol: "CN", Decimals: 18} }
+	sup := func(d string) Op { return Op{K: "supply", A: d} }
+	return []Spec{
+		// D6: update of a multi-denomination pair
+		{ID: -1, Ops: []Op{coin(""), coin(""), {K: "regerc20", A: "@0"}, sup("dcoin"), {K: "addcoin", A: "@0", MD: simpleMD("dcoin", "dcoin")},
+			{K: "update", A: "@0", B: "@1"}, {K: "convcoin", A: "dcoin"}, {K: "toggle", A: "dcoin"}}},
+		// D6 on a module-owned pair
+		{ID: -2, Ops: []Op{sup("acoin"), {K: "regcoin", MD: updatableMD("acoin", "acoin")}, sup("bcoin"), {K: "addcoin", A: "@0", MD: simpleMD("bcoin", "bcoin")},
+			sup("ccoin"), {K: "addcoin", A: "@0l", MD: simpleMD("ccoin", "ccoin")}, coin(""), {K: "update", A: "@0", B: "@1"}, {K: "convcoin", A: "ccoin"}}},
+		// AGG1: update to an address that belongs to another pair
+		{ID: -3, Ops: []Op{coin(""), coin(""), {K: "regerc20", A: "@0"}, {K: "regerc20", A: "@1"}, {K: "update", A: "@0", B: "@1"}, {K: "update", A: "@0", B: "@0"},
+			{K: "converc20", A: "@1", B: "@den1"}}},
+		// AGG2: the contract's own hex rendering as denomination
+		{ID: -4, Ops: []Op{coin(""), {K: "regerc20", A: "@0"}, {K: "converc20", A: "@0", B: "@0n"}, {K: "convcoin", A: "@0n"}}},
+		// AGG3: genesis with a denomination in two pairs / twice in one pair / no denomination
+		{ID: -5, Ops: []Op{{K: "genesis", Pairs: []GPair{{Text: "@0", Denoms: []string{"acoin", "ccoin"}, Enabled: true, Owner: 1}, {Text: "@1", Denoms: []string{"bcoin", "ccoin"}, Enabled: true, Owner: 2}}}}},
+		{ID: -6, Ops: []Op{{K: "genesis", Pairs: []GPair{{Text: "@0", Denoms: []string{"acoin", "bcoin", "bcoin"}, Enabled: true, Owner: 1}}}}},
+		{ID: -7, Ops: []Op{{K: "genesis", Pairs: []GPair{{Text: "@0", Denoms: nil, Enabled: true, Owner: 1}}}}},
+		// C12a: a coin whose base reads as the address of a registered contract
+		{ID: -8, Ops: []Op{coin(""), {K: "regerc20", A: "@0"}, sup("@0n"), {K: "regcoin", MD: simpleMD("@0n", "hexcoin")}, {K: "toggle", A: "@0n"}, {K: "convcoin", A: "@0n"},
+			sup("@0N"), {K: "addcoin", A: "@0", MD: simpleMD("@0N", "hexcoin2")}}},
+		{ID: -9, Ops: []Op{{K: "genesis", Pairs: []GPair{{Text: "@0", Denoms: []string{"acoin", "@0n"}, Enabled: true, Owner: 1}}}}},
+		// C12b: a genesis pair without bank metadata, then the same base under another name
+		{ID: -10, Ops: []Op{{K: "genesis", Pairs: []GPair{{Text: "@0", Denoms: []string{"dcoin"}, Enabled: true, Owner: 1}, {Text: "@1", Denoms: []string{"ecoin"}, Enabled: true, Owner: 1}}},
+			sup("dcoin"), {K: "regcoin", MD: simpleMD("dcoin", "Other name")}, {K: "addcoin", A: "@1", MD: simpleMD("dcoin", "Another")}, sup("fcoin"), {K: "regcoin", MD: simpleMD("fcoin", "dcoin")}}},
+		// C12c: one contract spelled in two ways
+		{ID: -11, Ops: []Op{{K: "genesis", Pairs: []GPair{{Text: "@0", Denoms: []string{"dcoin"}, Enabled: true, Owner: 1}, {Text: "@0l", Denoms: []string{"ecoin"}, Enabled: true, Owner: 1}}}}},
+		{ID: -12, Ops: []Op{{K: "genesis", Pairs: []GPair{{Text: "@0n", Denoms: []string{"dcoin"}, Enabled: true, Owner: 1}, {Text: "@0u", Denoms: []string{"ecoin"}, Enabled: true, Owner: 2}}}}},
+		// self-destruct clean-up through both conversion messages, pair with two denominations
+		{ID: -13, Ops: []Op{coin(""), {K: "regerc20", A: "@0"}, sup("dcoin"), {K: "addcoin", A: "@0", MD: simpleMD("dcoin", "dcoin")}, {K: "destroy", A: "@0"}, {K: "convcoin", A: "dcoin"},
+			coin(""), {K: "regerc20", A: "@1"}, {K: "destroy", A: "@1"}, {K: "converc20", A: "@1", B: "@den1"}}},
+		// the masked Name test and the pointer comparison (same base twice: identical metadata, other name)
+		{ID: -14, Ops: []Op{sup("dcoin"), sup("ecoin"), {K: "regcoin", MD: simpleMD("dcoin", "dcoin")}, {K: "regcoin", MD: simpleMD("dcoin", "dcoin")}, {K: "regcoin", MD: simpleMD("dcoin", "Other name")},
+			{K: "regcoin", MD: simpleMD("ecoin", "dcoin")}, {K: "regcoin", MD: simpleMD("ecoin", "ecoin")}, {K: "enable", On: false}, {K: "toggle", A: "dcoin"}, {K: "convcoin", A: "dcoin"}, {K: "enable", On: true}}},
+	}
 }
